@@ -343,13 +343,17 @@ def cache_history(job):
 
     singles = {('t', i): mk(i, HEIGHT - 10 - i) for i in (1, 2, 3)}
     # address histories: a1 has an ordinary history, a2 ends with a transaction in the tip block that the cache cannot store
-    addrs = {'a1': Key(7701 + seed % 97, network=network).address(), 'a2': Key(7801 + seed % 97, network=network).address()}
+    addrs = {'a1': Key(7701 + seed % 97, network=network).address(), 'a2': Key(7801 + seed % 97, network=network).address(),
+             'a3': Key(7901 + seed % 97, network=network).address()}
+    # a3: three transactions in ONE block and a later one (incremental queries "after txid" inside a block)
     hist = {'a1': [mk_to(40, HEIGHT - 5, addrs['a1']), mk_to(41, HEIGHT - 2, addrs['a1'])],
-            'a2': [mk_to(50, HEIGHT - 7, addrs['a2']), mk_to(51, HEIGHT + 99, addrs['a2'], with_value=rng.random() < 0.4)]}
+            'a2': [mk_to(50, HEIGHT - 7, addrs['a2']), mk_to(51, HEIGHT + 99, addrs['a2'], with_value=rng.random() < 0.4)],
+            'a3': [mk_to(60, HEIGHT - 6, addrs['a3']), mk_to(61, HEIGHT - 6, addrs['a3']), mk_to(62, HEIGHT - 6, addrs['a3']),
+                   mk_to(63, HEIGHT - 1, addrs['a3'])]}
     hid = {}
     for a, l in hist.items():
         for n, t in enumerate(l):
-            hid[t.txid] = ('h', 10 * (1 if a == 'a1' else 2) + n)
+            hid[t.txid] = ('h', 10 * int(a[1]) + n)
     # the (static) truth about unspent outputs, balances and spent flags
     utruth = {a: [{'address': addrs[a], 'txid': t.txid, 'confirmations': t.confirmations, 'output_n': 0, 'input_n': 0,
                    'block_height': t.block_height, 'fee': t.fee, 'size': t.size, 'value': t.outputs[0].value, 'script': '', 'date': t.date}
@@ -423,7 +427,8 @@ def cache_history(job):
     plan = []
     if rng.random() < 0.3:
         pa = rng.choice(['a1', 'a2'])
-        plan = rng.choice([[('tx', hid[hist[pa][1].txid]), ('utxos', pa), ('tx', hid[hist[pa][0].txid]), ('utxos', pa)],
+        plan = rng.choice([[('txs', 'a3', 0), ('txs', 'a3', 1), ('txs', 'a3', 2), ('txs', 'a3', 3)],
+                           [('tx', hid[hist[pa][1].txid]), ('utxos', pa), ('tx', hid[hist[pa][0].txid]), ('utxos', pa)],
                            [('tx', hid[hist[pa][1].txid]), ('utxos', pa), ('utxos', pa), ('txs', pa)],
                            [('tx', hid[hist[pa][1].txid]), ('balance', pa), ('txs', pa), ('utxos', pa)]])
     for step in range(nops):
@@ -449,11 +454,13 @@ def cache_history(job):
                 else:
                     ev['ret'] = list(next((kk for kk, t in allt.items() if t.raw_hex() == r), ('corrupt', 0)))
             elif op == 'txs':
-                a = forced[1] if forced else rng.choice(['a1', 'a2', 'a2'])
+                a = forced[1] if forced else rng.choice(['a1', 'a2', 'a2', 'a3', 'a3'])
+                k = (forced[2] if forced and len(forced) > 2 else rng.choice([0, 0] + list(range(len(hist[a])))))
                 ev['a'] = a
-                ev['full'] = [list(hid[t.txid]) for t in hist[a]]
-                d[0] = 'gettransactions(%s) prov=%s' % (a, prov)
-                r = srv.gettransactions(addrs[a])
+                ev['after'] = k
+                ev['full'] = [list(hid[t.txid]) for t in hist[a][k:]]
+                d[0] = 'gettransactions(%s%s) prov=%s' % (a, (', after its transaction number %d' % k) if k else '', prov)
+                r = srv.gettransactions(addrs[a], after_txid=hist[a][k - 1].txid) if k else srv.gettransactions(addrs[a])
                 if r is False or r is None:
                     ev['ok'] = False
                     ev['ret'] = []
@@ -461,7 +468,7 @@ def cache_history(job):
                     ev['ret'] = [list(hid.get(t.txid, ('corrupt', n))) if _fp_light(t) == _fp_light(next((x for x in hist[a] if x.txid == t.txid), t))
                                  else ['corrupt', n] for n, t in enumerate(r)]
             elif op == 'utxos':
-                a = forced[1] if forced else rng.choice(['a1', 'a2'])
+                a = forced[1] if forced else rng.choice(['a1', 'a2', 'a3'])
                 ev['a'] = a
                 ev['full'] = [list(hid[u['txid']]) + [u['output_n'], u['value']] for u in utruth[a]]
                 d[0] = 'getutxos(%s) prov=%s' % (a, prov)
@@ -472,7 +479,7 @@ def cache_history(job):
                 else:
                     ev['ret'] = [list(hid.get(u['txid'], ('corrupt', n))) + [u['output_n'], u['value']] for n, u in enumerate(r)]
             elif op == 'balance':
-                al = [forced[1]] if forced else rng.choice([['a1'], ['a2'], ['a1', 'a2'], ['a2', 'a1']])
+                al = [forced[1]] if forced else rng.choice([['a1'], ['a2'], ['a3'], ['a1', 'a2'], ['a2', 'a1'], ['a3', 'a1']])
                 ev['as'] = al
                 ev['val'] = sum(btruth[a] for a in al)
                 d[0] = 'getbalance(%s) prov=%s' % (al, prov)
